@@ -1,12 +1,169 @@
+"""C08 -- results do not depend on message timing.
+(a) level T: the real Ticker under every answer order of small wirings; all runs of one history are
+    compared with each other inside Coq (code 21) and with Model/Ticker.v.
+(b) level S on a controllable bus (harness/cbus.py): whole flat / nested simulations are run on the
+    synchronous in-memory bus (reference) and on a conforming broker-like bus that delays and reorders
+    deliveries under seeded policies (random, newest-first, interrupts held back, one component's
+    answers held back); stimuli are applied between ticks, several at one instant only on devices
+    with disjoint downstream cones.  Coq compares every device's (time, inputs) sequence between the
+    reference and each delayed run (code 22) and both with Model/Sim.v."""
+import json
+import random
+
+import cbus
+import slevel
+import sprops
 import tprops
+from common import run_shards
 
 PID = "C08"
+T_END = 2_600_000_003
+POLICIES = ["random", "random", "lifo", "hold-interrupts", "hold-component", "fifo"]
+
+
+def cones(cfg):
+    f = sprops.flatten(cfg)
+    succ = {}
+    for (u, p, c, q) in f[1]["conns"]:
+        succ.setdefault(u, set()).add(c)
+    out = {}
+    for d, _ in f[1]["order"]:
+        seen, todo = {d}, [d]
+        while todo:
+            for y in succ.get(todo.pop(), ()):
+                if y not in seen:
+                    seen.add(y)
+                    todo.append(y)
+        out[d] = seen
+    return out
+
+
+def gen_stim(rng, cfg):
+    dl = slevel.devices_of(cfg)
+    cone = cones(cfg)
+    stim, simultaneous = [], 0
+    for _ in range(rng.randint(1, 3)):
+        r = rng.randrange(1, 2500) * 1_000_000 + 333
+        if any(abs(r - r0) < 2_000_000 for r0, _ in stim):
+            continue
+        a = rng.choice(dl)
+        stim.append((r, a))
+        others = [b for b in dl if b != a and not (cone[a] & cone[b])]
+        if others and rng.random() < 0.7:
+            stim.append((r, rng.choice(others)))
+            simultaneous += 1
+    return sorted(stim), simultaneous
+
+
+def make_bus(policy, bseed, cfg):
+    from tickit.core.typedefs import Interrupt
+    rng = random.Random(bseed)
+    if policy == "hold-interrupts":
+        return cbus.CBus(rng, "hold", hold=lambda cons, topic, msg: isinstance(msg, Interrupt))
+    if policy == "hold-component":
+        comps = [c for lv in cfg.values() for (c, _) in lv["order"]]
+        victim = slevel.cname(rng.choice(comps))
+        return cbus.CBus(rng, "hold", hold=lambda cons, topic, msg: topic.endswith(victim + "-out") or topic.endswith(victim + "-in"))
+    return cbus.CBus(rng, policy)
+
+
+def run_group(case):
+    ref = slevel.run_internal(case["cfg"], case["devs"], stim=case["stim"], t_end=T_END)
+    delayed = []
+    for (policy, bseed) in case["schedules"]:
+        run = slevel.run_internal(case["cfg"], case["devs"], stim=case["stim"], t_end=T_END, bus=make_bus(policy, bseed, case["cfg"]))
+        delayed.append(run)
+    rend = lambda r: slevel.render_sim_case(case["cfg"], case["devs"], (1, 1), 0, case["stim"], T_END, r)  # noqa: E731
+    return ref, delayed, "(%s, [%s])" % (rend(ref), "; ".join(rend(d) for d in delayed))
+
+
+def describe(case):
+    return dict(kind="net", cfg={str(k): v for k, v in case["cfg"].items()}, devs={str(k): list(v) for k, v in case["devs"].items()},
+                stim=[list(s) for s in case["stim"]], schedules=[list(s) for s in case["schedules"]])
+
+
+def net_part(ck, tier, rng):
+    n, k = {"quick": (36, 5), "thorough": (400, 10)}[tier]
+    cases, terms, groups = [], [], []
+    nsim = 0
+    for i in range(n):
+        cfg = slevel.gen_config(rng, depth=rng.choice([0, 1, 2, 2, 3]), p_sys=0.6)
+        devs = slevel.gen_devs(rng, cfg)
+        stim, sim = gen_stim(rng, cfg)
+        nsim += sim
+        case = dict(cfg=cfg, devs=devs, stim=stim, schedules=[(rng.choice(POLICIES), rng.randrange(10 ** 6)) for _ in range(k)])
+        ref, delayed, term = run_group(case)
+        cases.append(case)
+        terms.append(term)
+        groups.append((ref, delayed))
+    bad = run_shards(PID + "_net", sprops.HEADER, "sched_case", "check_sched", terms, shard_size=4)
+    deliveries = choices = 0
+    pol = {}
+    for case, (ref, delayed) in zip(cases, groups):
+        for (policy, _), d in zip(case["schedules"], delayed):
+            pol[policy] = pol.get(policy, 0) + 1
+            deliveries += (d["bus"] or {}).get("delivered", 0)
+            choices += (d["bus"] or {}).get("choices", 0)
+            ck.count("net:" + json.dumps([describe(case)["cfg"], case["stim"], policy, _], sort_keys=True),
+                     (d["bus"] or {}).get("choices", 0) >= 5)
+    ck.coverage.update(net_simulations=len(cases), net_delayed_runs=sum(len(c["schedules"]) for c in cases), net_policies=pol,
+                       net_deliveries=deliveries, net_scheduling_choices=choices, net_simultaneous_stimuli=nsim,
+                       net_nested=sum(1 for c in cases if len(c["cfg"]) > 1), net_disagreements=len(bad))
+    reported = False
+    # a participant that raises or a simulation that stalls under some schedule only
+    for i, (case, (ref, delayed)) in enumerate(zip(cases, groups)):
+        for (policy, bseed), d in zip(case["schedules"], delayed):
+            errs = (d["bus"] or {}).get("errors", []) + d["errors"] + ([d["error"]] if d["error"] else [])
+            if errs and not (ref["errors"] or ref["error"]) and not reported:
+                reported = True
+                dd = describe(case)
+                dd.update(schedules=[[policy, bseed]], errors=errs[:3])
+                ck.report("participant-raised-or-stalled-under-a-delivery-schedule",
+                          f"whole simulation on the delaying bus ({policy}): {errs[0][:200]}", dd)
+    for i in sorted(bad):
+        if 22 in bad[i] and not reported:
+            reported = True
+            case, (ref, delayed) = cases[i], groups[i]
+            which = [j for j, d in enumerate(delayed) if d["per"] != ref["per"]]
+            dd = describe(case)
+            if which:
+                dd["schedules"] = [list(case["schedules"][which[0]])]
+                d = delayed[which[0]]
+                dev = sorted(c for c in set(ref["per"]) | set(d["per"]) if ref["per"].get(c) != d["per"].get(c))[0]
+                dd.update(device=dev, reference=[[t, sorted(v.items())] for t, v in ref["per"].get(dev, [])][:12],
+                          delayed=[[t, sorted(v.items())] for t, v in d["per"].get(dev, [])][:12])
+            dd["codes"] = bad[i]
+            ck.report("device-observations-depend-on-the-delivery-schedule",
+                      "a device observes another (time, inputs) sequence on a delaying / reordering bus than on the in-memory bus", dd)
+    if not reported and bad:
+        i = min(bad)
+        dd = describe(cases[i])
+        dd.update(codes=bad[i], broken="correspondence Model/Sim.v vs whole simulations (reference or delayed runs); theorems of Props.C08")
+        ck.report("correspondence-broken", "whole-simulation model and implementation disagree but every delayed run agrees with its reference",
+                  dd, no_input=True)
 
 
 def main(tier, seed):
     return tprops.main_T(PID, tier, seed, {21}, "Props.C08",
-                         ["Model/Ticker.v", "Oracle/TickerOracle.v", "Proofs/TickerP.v", "Props/C08.v"],
-                         "schedule independence")
+                         ["Model/Ticker.v", "Oracle/TickerOracle.v", "Model/Sim.v", "Oracle/SimCheck.v", "Oracle/SimOracle.v",
+                          "Proofs/TickerP.v", "Props/C08.v"],
+                         "schedule independence", extra=net_part)
 
 
-replay = tprops.replay_T
+def replay(rp):
+    if rp.get("kind") != "net":
+        return tprops.replay_T(rp)
+    case = dict(cfg={int(k): dict(order=[(c, kk) for c, kk in v["order"]], conns=[tuple(x) for x in v["conns"]]) for k, v in rp["cfg"].items()},
+                devs={int(k): tuple(v) for k, v in rp["devs"].items()}, stim=[tuple(s) for s in rp["stim"]],
+                schedules=[tuple(s) for s in rp["schedules"]])
+    ref, delayed, term = run_group(case)
+    bad = run_shards("replay", sprops.HEADER, "sched_case", "check_sched", [term])
+    print("configuration:", case["cfg"], "stimuli:", case["stim"], "schedules:", case["schedules"])
+    for d in delayed:
+        for c in sorted(set(ref["per"]) | set(d["per"])):
+            if ref["per"].get(c) != d["per"].get(c):
+                print(f"device {c}: reference {[t for t, _ in ref['per'].get(c, [])]} delayed {[t for t, _ in d['per'].get(c, [])]}")
+        if d["errors"] or d["error"] or (d["bus"] or {}).get("errors"):
+            print("errors:", d["error"], d["errors"][:2], (d["bus"] or {}).get("errors", [])[:2])
+    print("codes:", bad.get(0, []))
+    return 1 if bad else 0
